@@ -75,6 +75,32 @@ def parse_division(boundary, body, cuts, want_states=True):
     return (markups, err), states, carried
 
 
+def parse_interleaved(b1, body1, cuts1, b2, body2, cuts2):
+    """Two uploads parsed at the same time by two parser objects (two requests in flight, or a
+    truncated upload followed by another one): their chunks arrive alternately."""
+    from ombott.request_pkg.multipart import MultipartMarkup
+    mks = [MultipartMarkup(b1), MultipartMarkup(b2)]
+    bodies = [body1, body2]
+    chunks = []
+    for body, cuts in ((body1, cuts1), (body2, cuts2)):
+        prev, lst = 0, []
+        for c in [c for c in cuts if 0 < c < len(body)] + [len(body)]:
+            if body[prev:c]:
+                lst.append(body[prev:c])
+            prev = c
+        chunks.append(lst)
+    i = 0
+    while i < len(chunks[0]) or i < len(chunks[1]):
+        for k in (0, 1):
+            if i < len(chunks[k]):
+                mks[k].parse(chunks[k][i])
+        i += 1
+    out = []
+    for mk in mks:
+        out.append(([[n, [s, e]] for n, (s, e) in mk.markups], type(mk.error).__name__ if mk.error is not None else None))
+    return out
+
+
 def _body_of(case):
     body, layout = gm.build(case['st'])
     if case.get('mut') is not None:
@@ -107,6 +133,14 @@ def gen_case(rng, tier):
     case['cuts'] = sorted(set(rng.randrange(1, n) for _ in range(k))) if n > 1 else []
     if level == 'b':
         case['B'] = rng.choice([1, 2, 3, 5, 7, 16, 64, 256, 1024, 102400])
+    elif rng.random() < 0.15:
+        # a second upload parsed at the same time by another parser object, chunks arriving alternately
+        st2 = gm.gen_structure(rng, token_only=False, max_parts=3, max_data=40)
+        b2, _ = gm.build(st2)
+        oc = {'st': st2, 'plen': (rng.randrange(1, len(b2)) if rng.random() < 0.4 and len(b2) > 1 else None)}
+        n2 = len(b2) if oc['plen'] is None else oc['plen']
+        oc['cuts'] = sorted(set(rng.randrange(1, n2) for _ in range(rng.choice([1, 2, 3, 8])))) if n2 > 1 else []
+        case['other'] = oc
     return case
 
 
@@ -202,6 +236,20 @@ def run_case(case):
         got, states, carried = parse_division(boundary, body, cuts)
         ref = _ref_a(boundary, body)
         log('got', digest(got))
+        if case.get('other') is not None:
+            oc = case['other']
+            body2 = _body_of(oc)
+            bnd2 = oc['st']['boundary'].encode()
+            both = parse_interleaved(boundary, body, cuts, bnd2, body2, oc['cuts'])
+            refs = [ref, _ref_a(bnd2, body2)]
+            log('interleaved', digest(both))
+            res['fired']['two_parsers_interleaved'] += 1
+            for k in (0, 1):
+                if both[k] != refs[k]:
+                    violation(res, 'C06:interleaved-parsers-interfere',
+                              f'upload {k} parsed while another parser object was fed in between gives {_short(both[k])}; '
+                              f'alone in one piece it gives {_short(refs[k])}', got=both[k], ref=refs[k])
+                    break
         if got != ref:
             violation(res, 'C06:division-dependent',
                       f'division {cuts[:8]} of a {n}-byte {"prefix" if case.get("plen") is not None else "body"} gives '
